@@ -167,6 +167,7 @@ def one_point(subject, k, work, save_frequency, compressed):
         shutil.rmtree(d, ignore_errors=True)
 
 
+@common.safe
 def long_run(item):
     """Scale: one batch taken to more than 10 000 / 2**15 trials in two sessions (the
     second resumes the file of the first), no interrupt: the file must hold exactly
@@ -234,7 +235,7 @@ def run(tier):
     longs = [('matching', 10000, 10005, 2500, False, work), ('matching', 9000, 12003, 500, True, work)]
     if tier != 'quick':
         longs += [('unionfind', 2 ** 15 - 3, 2 ** 15 + 6, 5000, False, work), ('matching', 65530, 65541, 30000, True, work)]
-    out += common.pmap(common.safe(long_run), longs, procs=4)
+    out += common.pmap(long_run, longs, procs=4)
     recs = []
     for o in out:
         if isinstance(o, list):
